@@ -254,4 +254,209 @@ theorem headOK_top {nul : List Bool} {rank : List Nat} {K : Nat} (hr : ∀ r, r 
   | andP e ih => intro h; simp only [exprOK] at h; simp only [headOK]; exact ih h
   | cap e ih => intro h; simp only [exprOK] at h; simp only [headOK]; exact ih h
 
+/-! ### totality: fuel exhaustion is unreachable -/
+
+section Total
+variable {g : Grammar} {nul : List Bool} {rank : List Nat}
+
+/-- `S`: strictly above every rule body's size (and ≥ 2) -/
+def bigS (g : Grammar) : Nat := maxSize g + 2
+/-- `W`: the fuel one consumed rune pays for -/
+def bigW (g : Grammar) : Nat := (g.rules.size + 2) * bigS g
+
+theorem rank_top (h : WF g nul rank) : ∀ r, r < g.rules.size → rank.getD r g.rules.size < g.rules.size := by
+  intro r hr
+  have : g.rules[r]? = some g.rules[r] := Array.getElem?_eq_getElem hr
+  have f := h.facts this
+  have hrl : r < rank.length := by rw [h.rankLen]; exact hr
+  have e1 : rank.getD r g.rules.size = rank.getD r 0 := by
+    simp [List.getD_eq_getElem?_getD, List.getElem?_eq_getElem hrl]
+  rw [e1]; exact f.rankLt
+
+/-- The measure `|s|·W + k·S + size e` bounds the recursion depth of `run` on `e` at level `k`. -/
+theorem run_no_oof (h : WF g nul rank) :
+    ∀ (fuel : Nat) (e : Expr) (pos : Nat) (s : List Nat) (k : Nat),
+      exprOK g.rules.size nul e = true → headOK nul rank k e = true → size e ≤ bigS g → k ≤ g.rules.size →
+      s.length * bigW g + k * bigS g + size e ≤ fuel → run g fuel e pos s ≠ .oof := by
+  intro fuel
+  induction fuel with
+  | zero =>
+    intro e pos s k _ _ _ _ hf
+    have := size_pos e
+    omega
+  | succ fuel ih =>
+    intro e pos s k hok hhd hsz hk hf
+    have hns := h.nulSound
+    have hW : bigW g = g.rules.size * bigS g + 2 * bigS g := by unfold bigW; rw [Nat.add_mul]
+    -- continuing after input was consumed: any level fits
+    have shrink : ∀ (e' : Expr) (p1 : Nat) (s1 : List Nat), exprOK g.rules.size nul e' = true → size e' ≤ bigS g →
+        s1.length < s.length → run g fuel e' p1 s1 ≠ .oof := by
+      intro e' p1 s1 hok' hsz' hlt
+      apply ih e' p1 s1 g.rules.size hok' (headOK_top (rank_top h) e' hok') hsz' (Nat.le_refl _)
+      have h1 : (s1.length + 1) * bigW g ≤ s.length * bigW g := Nat.mul_le_mul_right _ hlt
+      rw [Nat.add_mul, Nat.one_mul] at h1
+      have := size_pos e
+      omega
+    -- continuing at the same level on an input that is not longer
+    have same : ∀ (e' : Expr) (p1 : Nat) (s1 : List Nat), exprOK g.rules.size nul e' = true → headOK nul rank k e' = true →
+        size e' < size e → s1.length ≤ s.length → run g fuel e' p1 s1 ≠ .oof := by
+      intro e' p1 s1 hok' hhd' hsz' hle
+      apply ih e' p1 s1 k hok' hhd' (by omega) hk
+      have h1 : s1.length * bigW g ≤ s.length * bigW g := Nat.mul_le_mul_right _ hle
+      omega
+    cases e with
+    | eps => simp [run]
+    | rng lo hi =>
+      cases s with
+      | nil => simp [run]
+      | cons c r => simp only [run]; split <;> simp
+    | any =>
+      cases s with
+      | nil => simp [run]
+      | cons c r => simp [run]
+    | call r =>
+      simp only [run]
+      split
+      · simp
+      · rename_i body hb
+        have f := h.facts hb
+        have hrk : rank.getD r 0 < k := by
+          simp only [headOK, decide_eq_true_eq] at hhd
+          have hrl : r < rank.length := by rw [h.rankLen]; exact f.lt
+          have e1 : rank.getD r k = rank.getD r 0 := by
+            simp [List.getD_eq_getElem?_getD, List.getElem?_eq_getElem hrl]
+          rw [e1] at hhd; exact hhd
+        have hbs : size body ≤ bigS g := by have := size_le_maxSize hb; unfold bigS; omega
+        have hne : run g fuel body pos s ≠ .oof := by
+          apply ih body pos s (rank.getD r 0) f.exprOK f.headOK hbs (Nat.le_of_lt f.rankLt)
+          have h1 : (rank.getD r 0 + 1) * bigS g ≤ k * bigS g := Nat.mul_le_mul_right _ hrk
+          rw [Nat.add_mul, Nat.one_mul] at h1
+          simp only [size] at hf
+          omega
+        split
+        · simp
+        · rename_i x hx
+          cases x <;> simp_all
+    | seq a b =>
+      simp only [exprOK, Bool.and_eq_true] at hok
+      simp only [headOK, Bool.and_eq_true, Bool.or_eq_true, Bool.not_eq_true'] at hhd
+      simp only [size] at hsz hf
+      have ha := same a pos s hok.1 hhd.1 (by simp only [size]; omega) (Nat.le_refl _)
+      simp only [run]
+      split
+      · rename_i p1 s1 t1 h1
+        have inv := run_ok hns fuel a pos s _ _ _ h1
+        have hb : run g fuel b p1 s1 ≠ .oof := by
+          cases hhd.2 with
+          | inl hna => exact shrink b p1 s1 hok.2 (by omega) (inv.2.2 hna)
+          | inr hhb => exact same b p1 s1 hok.2 hhb (by simp only [size]; omega) inv.1
+        split
+        · simp
+        · rename_i x hx
+          cases x <;> simp_all
+      · rename_i x hx
+        cases x <;> simp_all
+    | alt a b =>
+      simp only [exprOK, Bool.and_eq_true] at hok
+      simp only [headOK, Bool.and_eq_true] at hhd
+      have ha := same a pos s hok.1 hhd.1 (by simp only [size]; omega) (Nat.le_refl _)
+      have hb := same b pos s hok.2 hhd.2 (by simp only [size]; omega) (Nat.le_refl _)
+      simp only [run]
+      split
+      · exact hb
+      · rename_i x hx
+        cases x <;> simp_all
+    | star e =>
+      simp only [exprOK, Bool.and_eq_true, Bool.not_eq_true'] at hok
+      simp only [headOK] at hhd
+      have ha := same e pos s hok.1 hhd (by simp only [size]; omega) (Nat.le_refl _)
+      simp only [run]
+      split
+      · rename_i p1 s1 t1 h1
+        have inv := run_ok hns fuel e pos s _ _ _ h1
+        have hb : run g fuel (.star e) p1 s1 ≠ .oof :=
+          shrink (.star e) p1 s1 (by simp only [exprOK, Bool.and_eq_true, Bool.not_eq_true']; exact hok) hsz (inv.2.2 hok.2)
+        split
+        · simp
+        · rename_i x hx
+          cases x <;> simp_all
+      · simp
+      · rename_i hx; exact absurd hx ha
+    | plus e =>
+      simp only [exprOK, Bool.and_eq_true, Bool.not_eq_true'] at hok
+      simp only [headOK] at hhd
+      have ha := same e pos s hok.1 hhd (by simp only [size]; omega) (Nat.le_refl _)
+      simp only [run]
+      split
+      · rename_i p1 s1 t1 h1
+        have inv := run_ok hns fuel e pos s _ _ _ h1
+        have hb : run g fuel (.star e) p1 s1 ≠ .oof :=
+          shrink (.star e) p1 s1 (by simp only [exprOK, Bool.and_eq_true, Bool.not_eq_true']; exact hok)
+            (by simp only [size] at hsz ⊢; omega) (inv.2.2 hok.2)
+        split
+        · simp
+        · rename_i x hx
+          cases x <;> simp_all
+      · rename_i x hx
+        cases x <;> simp_all
+    | opt e =>
+      simp only [exprOK] at hok
+      simp only [headOK] at hhd
+      have ha := same e pos s hok hhd (by simp only [size]; omega) (Nat.le_refl _)
+      simp only [run]
+      split
+      · simp
+      · rename_i x hx
+        cases x <;> simp_all
+    | notP e =>
+      simp only [exprOK] at hok
+      simp only [headOK] at hhd
+      have ha := same e pos s hok hhd (by simp only [size]; omega) (Nat.le_refl _)
+      simp only [run]
+      split
+      · simp
+      · simp
+      · rename_i hx; exact absurd hx ha
+    | andP e =>
+      simp only [exprOK] at hok
+      simp only [headOK] at hhd
+      have ha := same e pos s hok hhd (by simp only [size]; omega) (Nat.le_refl _)
+      simp only [run]
+      split
+      · simp
+      · rename_i x hx
+        cases x <;> simp_all
+    | cap e =>
+      simp only [exprOK] at hok
+      simp only [headOK] at hhd
+      have ha := same e pos s hok hhd (by simp only [size]; omega) (Nat.le_refl _)
+      simp only [run]
+      split
+      · simp
+      · rename_i x hx
+        cases x <;> simp_all
+
+/-- `p.Parse()` never runs out of fuel on a well-formed grammar. -/
+theorem parseRunes_no_oof (h : WF g nul rank) (rs : List Nat) : parseRunes g rs ≠ .oof := by
+  unfold parseRunes
+  rcases Nat.eq_zero_or_pos g.rules.size with h0 | hpos
+  · -- no rule at all: `call 0` fails at once
+    have : g.rules[0]? = none := Array.getElem?_eq_none (by omega)
+    unfold fuelFor
+    simp [run, this]
+  · apply run_no_oof h _ (.call 0) 0 rs g.rules.size
+    · simp only [exprOK, decide_eq_true_eq]; exact hpos
+    · simp only [headOK, decide_eq_true_eq]; exact rank_top h 0 hpos
+    · simp only [size]; unfold bigS; omega
+    · exact Nat.le_refl _
+    · unfold fuelFor
+      have hW : bigW g = g.rules.size * bigS g + 2 * bigS g := by unfold bigW; rw [Nat.add_mul]
+      have e1 : (rs.length + 1) * ((g.rules.size + 2) * (maxSize g + 2)) = rs.length * bigW g + bigW g := by
+        unfold bigW bigS; rw [Nat.add_mul, Nat.one_mul]
+      rw [e1]
+      simp only [size]
+      omega
+
+end Total
+
 end Peg
